@@ -110,7 +110,7 @@ def eval_interp_like(case, drv):
 def gen_case(rng, tier, i):
     if rng.random() < 0.2:
         return gen_interp_like(rng, tier, i)
-    n_axes = rng.choice([1, 2, 2, 3])
+    n_axes = rng.choice([1, 2, 2, 3, 3])
     axes = mg.random_axes(rng, n_axes)
     names = [a["name"] for a in axes]
     mvars, registry = [], []
@@ -287,14 +287,22 @@ def eval_case(case, drv):
             fresh.set_metrics(tuple(e["key"]), list(e["names"]))
 
         def ask(g_):
-            try:
-                return ("ok", g_.get_metric(data2, arg))
-            except Exception as e:  # noqa: BLE001
-                return ("err", exc_kind(e))
+            with warnings.catch_warnings(record=True) as rec:
+                warnings.simplefilter("always")
+                try:
+                    out = ("ok", g_.get_metric(data2, arg))
+                except Exception as e:  # noqa: BLE001
+                    out = ("err", exc_kind(e))
+            return out + (sorted({str(w.message)[:60] for w in rec if "interpolated" in str(w.message)}),)
+        # (first the same request twice on the used grid: an interpolated metric is announced every time)
+        ask(grid)
         a2, f2 = ask(grid), ask(fresh)
         if a2[0] != f2[0] or (a2[0] == "ok" and not eq(a2[1], f2[1])):
             prop_ok = False
             detail["history"] = {"second_request_dims": dims2, "same_grid": str(a2[1])[:120], "fresh_grid": str(f2[1])[:120]}
+        elif a2[2] != f2[2]:
+            prop_ok = False
+            detail["history_warning"] = {"second_request_dims": dims2, "same_grid_warned": a2[2], "fresh_grid_warned": f2[2]}
         branch = ("product" if want_sel and len(want_sel) > 1 else "single") + \
             (":interp" if want_sel and any(i for _, i in want_sel) else "")
         # ---- operations built on the metric
